@@ -146,6 +146,8 @@ def _normalizer_summary(nf, defs_outer):
         for st in body:
             if isinstance(st, ast.Assign) and len(st.targets) == 1 and isinstance(st.targets[0], ast.Name):
                 env[st.targets[0].id] = e.ev(st.value, env)
+            elif isinstance(st, ast.AugAssign) and isinstance(st.target, ast.Name):
+                env[st.target.id] = e.ev(ast.copy_location(ast.BinOp(left=ast.Name(id=st.target.id, ctx=ast.Load()), op=st.op, right=st.value), st), env)
             elif isinstance(st, ast.For):
                 # order-preserving relabelling of the values above the smallest: for i, v in enumerate(unique(arr)[1:], start=1): arr[arr == v] = i
                 it = unparse(st.iter).replace(" ", "")
@@ -156,7 +158,7 @@ def _normalizer_summary(nf, defs_outer):
                 if ok:
                     a = [a for a in arrs if "unique(%s)" % a in it][0]
                     i, v = (x.id for x in tgt.elts)
-                    ok = len(st.body) == 1 and unparse(st.body[0]).replace(" ", "") == "%s[%s==%s]=%s" % (a, a, v, i)
+                    ok = len(st.body) == 1 and unparse(st.body[0]).replace(" ", "") in ("%s[%s==%s]=%s" % (a, a, v, i), "%s[%s==%s]=%s" % (a, v, a, i))
                 if not ok:
                     raise AnalysisError("union: relabelling loop of %s is not the order-preserving `for i, v in enumerate(unique(a)[1:], start=1): a[a == v] = i` (found `%s`)" % (nf.name, unparse(st)[:120]))
                 cur = env[a]
